@@ -12,7 +12,14 @@ Observed here (cannot be modelled: platform ABI, libffi, dlopen/dlsym, buffer ow
      images are compared with the extracted model's marshal image; missing library / symbol and
      nil string / nil record arguments must raise ffi_fail without calling.  Arities 0..8 sampled densely; the
      many-args family enumerates every arity 9..20 x a by-value record of every size class (register / memory) x
-     its position (first / middle / last), several big records per call, scalars only;
+     its position (first / middle / last), several big records per call, scalars only; the decl-order family puts
+     the same call into every legal arrangement of the program (extern before / after / between its callers, records
+     outer-first, the call made by a function nested two levels deep or by another top-level function) — a program
+     rejected by the compiler while its default-order twin runs exactly is a violation
+     (key declaration-order(<layout>):rejected-by-the-compiler); the huge-record family passes and returns records
+     whose layout crosses 64 KiB and 128 KiB (10^4 leaves, nested; every leaf offset of the model vs gcc offsetof,
+     every member of an argument printed by the callee, of a result the members around each multiple of 64 KiB,
+     the first / last ones and a random sample read back; the model's marshal IMAGE is not computed for them);
   3. calls IN SEQUENCE (harness/ffi/ffiseq.c + ffiseqgen.py): several programs and VMs in one process; every
      generated library and the executable (= "host") export the same symbols with different constants; library
      names around the reserved word (prefixes, word + suffix, paths through it, aliases), existing and missing;
@@ -209,7 +216,7 @@ def build_chunk(tmp, idx, cases):
     batch = os.path.join(d, "batch%d.txt" % idx)
     with open(batch, "w") as f:
         for c in cases:
-            f.write("@@@ %s\n%s" % (c.cid, c.never_source(lib)))
+            f.write("@@@ %s%s\n%s" % (c.cid, c.header_options(), c.never_source(lib)))
     return d, lib, src, batch
 
 
@@ -228,7 +235,9 @@ def run_chunk(nevrun, tmp, idx, cases):
 
 def run_cases(nevrun, tmp, cases, tag):
     per = max(1, min(40, (len(cases) + 2 * NPROC - 1) // (2 * NPROC)))
-    chunks = [cases[i:i + per] for i in range(0, len(cases), per)]
+    big = [c for c in cases if c.header_options()]          # huge records: seconds of gcc each, a chunk of their own
+    rest = [c for c in cases if not c.header_options()]
+    chunks = [[c] for c in big] + [rest[i:i + per] for i in range(0, len(rest), per)]
     base = len([x for x in os.listdir(tmp) if x.startswith("chunk")])
     with ThreadPoolExecutor(NPROC) as ex:
         outs = list(ex.map(lambda ic: run_chunk(nevrun, tmp, base + ic[0], ic[1]), enumerate(chunks)))
@@ -327,7 +336,7 @@ def shrink(nevrun, tmp, case, key_of, key, budget=14):
                     not any(ffigen.contains_nil(t, a) for t, a in zip(ps, ar)):
                 continue        # dropping this parameter would drop the reason for ffi_fail
             cand = ffigen.Case("s%03d" % n, cur.family, ps, cur.ret, ar, cur.retval, cur.expect, cur.libmode,
-                               "shrunk from " + case.cid)
+                               "shrunk from " + case.cid, layout=cur.layout, ret_check=cur.ret_check)
             n += 1
             try:
                 res, _ = run_cases(nevrun, tmp, [cand], "shrink")
@@ -655,7 +664,8 @@ def _run(ctx, tmp, nevrun):
             queries.append(q)
             owners.append((c, tag))
         o = res.get(c.cid)
-        if c.ret is not None and ffigen.is_rec(c.ret) and o is not None and "RI" in o.images:
+        if c.ret is not None and ffigen.is_rec(c.ret) and o is not None and "RI" in o.images \
+                and ffigen.nleaves(c.ret) <= ffigen.MODEL_IMAGE_MAX_LEAVES:
             queries.append("U %s %s" % (ffigen.tstr(c.ret), o.images["RI"]))
             owners.append((c, "U"))
         if c.expect == "ffi_fail" or c.family in ("scalars", "struct-arg", "struct-nested"):
@@ -689,6 +699,8 @@ def _run(ctx, tmp, nevrun):
 
     # ---- verdicts ---------------------------------------------------------------------------
     def key_of(case, kind):
+        if kind in ("compile-error", "rejected-by-the-compiler") and case.layout != "default":
+            return "declaration-order(%s):rejected-by-the-compiler" % case.layout
         if kind == "arg-value" and case.expect == "call" and ffigen.last_gpr_int_sse_struct(case.params, case.ret):
             return "struct-INTEGER+SSE-in-last-gpr(libffi):arg-value"
         return "%s:%s" % (ffigen.sig_class(case), kind)
@@ -702,6 +714,7 @@ def _run(ctx, tmp, nevrun):
     img_bad, img_n, unm_bad, unm_n, dec_bad, dec_n = None, 0, None, 0, None, 0
     ret_bad, ret_n, ret_nil_n = None, 0, 0
     compile_errors = []
+    by_cid = {c.cid: c for c in cases}
     for c in cases:
         o = res.get(c.cid)
         stats["family"][c.family] += 1
@@ -728,6 +741,27 @@ def _run(ctx, tmp, nevrun):
         else:
             kind, detail = v
             if kind == "compile-error":
+                tw = by_cid.get(c.twin) if c.twin else None
+                if tw is None and c.layout != "default":        # corpus / shrunk case: make the twin now
+                    tw = ffigen.Case(c.cid + "t", c.family, c.params, c.ret, c.args, c.retval, c.expect, c.libmode,
+                                     "default-order twin of " + c.cid)
+                    try:
+                        res.update(run_cases(nevrun, tmp, [tw], "twin")[0])
+                        by_cid[tw.cid] = tw
+                    except common.BuildError:
+                        tw = None
+                if tw is not None and judge(tw, res.get(tw.cid)) is None:
+                    # the same extern, records, values: only the ORDER of the declarations differs from a program that
+                    # compiles and runs exactly -> the compiler rejects a valid program; the call the property demands
+                    # never happens
+                    detail = {"noise": detail.get("noise"), "twin_in_default_order": tw.cid,
+                              "first_difference": {"expected": c.expected()[:3], "observed": "rejected by the compiler: %s" % "; ".join(
+                                  x.split(": ", 1)[-1] for x in (detail.get("noise") or [])[:2])}}
+                    k = key_of(c, "rejected-by-the-compiler")
+                    stats["outcome"]["VIOLATION " + k] += 1
+                    if k not in failing:
+                        failing[k] = (c, "rejected-by-the-compiler", detail)
+                    continue
                 compile_errors.append({"case": c.to_json(), "noise": detail.get("noise")})
                 stats["outcome"]["compile-error"] += 1
                 continue
@@ -847,7 +881,7 @@ def _run(ctx, tmp, nevrun):
         "layout: complete enumeration (see layout_exhaustive), non-trivial = shape with padding. calls: corpus first, "
         "then generated families (scalars of every arity, position sweep, register pressure, by-value struct args/returns "
         "of every size 1..40 bytes, small structs under register pressure, nested structs, missing lib/symbol, nil "
-        "string / nil record at every level, many-args: every arity 9..%d x record size class x position, and — enumerated, not sampled — every placement of a nil string field / nil "
+        "string / nil record at every level, many-args: every arity 9..%d x record size class x position, decl-order: 7 signature shapes x 8 program layouts, huge-record: layouts crossing 64 KiB / 128 KiB as argument and result, and — enumerated, not sampled — every placement of a nil string field / nil "
         "nested record before, after and between non-nil nested records inside one record argument at depth <= 3); non-trivial = distinct (signature, values) whose transcript was exactly "
         "the required one (callee entered with exact values in declared positions and exact result read back, or "
         "ffi_fail raised without a call).") % ffigen.MANY_ARGS_MAX[ctx.tier]
